@@ -62,7 +62,7 @@ def gen_cases(ctx):
     if ctx.shard == 0:
         yield {"kind": "default_record"}
         yield {"kind": "presets"}
-    n = ctx.share(ctx.scale(500, 24000))
+    n = ctx.share(ctx.scale(500, 120000))
     for i in range(n):
         rng = ctx.rng(1, i)
         mode = ["calc", "calc", "paths", "paths", "mesh"][int(rng.integers(5))] if ctx.tier == "quick" else ["calc", "paths", "mesh"][i % 3]
@@ -71,7 +71,7 @@ def gen_cases(ctx):
         yield {"kind": "config", "mode": mode, "seed": int(rng.integers(1 << 31)),
                "pmask": int(rng.integers(1 << 8)), "omask": int(rng.integers(1 << 6)),
                "tables": int(rng.integers(4)), "name": bool(rng.integers(2)), "strain_final": bool(rng.integers(2))}
-    for i in range(ctx.share(ctx.scale(160, 4000))):
+    for i in range(ctx.share(ctx.scale(160, 30000))):
         rng = ctx.rng(2, i)
         yield {"kind": "fault", "fault": FAULTS[i % len(FAULTS)], "seed": int(rng.integers(1 << 31))}
 
